@@ -470,6 +470,11 @@ func (p *Program) sortOf1(t types.Type) Sort {
 		case "jsonNodeInternals":
 			return SNode
 		}
+		if n, ok := t.(*types.Named); ok && n.Obj().Pkg() != nil {
+			if s, ok := p.closedIface(n, ut); ok {
+				return s
+			}
+		}
 		return SAny
 	case *types.Slice:
 		return p.U.SliceOf(p.sortOf(ut.Elem()))
@@ -646,4 +651,52 @@ func (p *Program) importPath(name string) string {
 		}
 	}
 	return ""
+}
+
+// closedIface builds one algebraic datatype for a package-level interface: a nil constructor plus
+// one constructor per named type of the same package that implements it (closed world).
+func (p *Program) closedIface(n *types.Named, it *types.Interface) (Sort, bool) {
+	pkg := n.Obj().Pkg()
+	name := Sort("If_" + sanitize(pkg.Name()+"_"+n.Obj().Name()))
+	if _, ok := p.U.dts[name]; ok {
+		return name, true
+	}
+	var impls []*types.Named
+	scope := pkg.Scope()
+	for _, nm := range scope.Names() {
+		tn, ok := scope.Lookup(nm).(*types.TypeName)
+		if !ok {
+			continue
+		}
+		nt, ok := tn.Type().(*types.Named)
+		if !ok || nt.TypeParams().Len() > 0 {
+			continue
+		}
+		if _, isIface := nt.Underlying().(*types.Interface); isIface {
+			continue
+		}
+		if types.Implements(nt, it) {
+			impls = append(impls, nt)
+		}
+	}
+	if len(impls) == 0 || len(impls) > 12 {
+		return "", false
+	}
+	dt := &DT{Name: name, Kind: "iface"}
+	p.U.dts[name] = dt
+	ctors := []string{fmt.Sprintf("(nil_%s)", name)}
+	for _, im := range impls {
+		ps := p.sortOf(im)
+		if ps == name || strings.HasPrefix(string(ps), "Unsupported_") {
+			delete(p.U.dts, name)
+			return "", false
+		}
+		cn := fmt.Sprintf("mk_%s_%s", name, im.Obj().Name())
+		sel := fmt.Sprintf("get_%s_%s", name, im.Obj().Name())
+		ctors = append(ctors, fmt.Sprintf("(%s (%s %s))", cn, sel, ps))
+		dt.Fields = append(dt.Fields, DTField{Name: im.Obj().Name(), Sel: sel, Sort: ps})
+	}
+	dt.Decl = fmt.Sprintf("(declare-datatypes ((%s 0)) ((%s)))", name, strings.Join(ctors, " "))
+	p.U.order = append(p.U.order, name)
+	return name, true
 }
